@@ -11,6 +11,7 @@
 -/
 import Flamego.Code.GoSem
 import Flamego.Model.Access
+import Flamego.Base.Engine
 namespace Flamego.Lib
 open Flamego.GoSem
 
@@ -93,4 +94,11 @@ def url_QueryUnescape (s : Bytes) : Bytes × Err :=
   | some v => (v, 0)
   | none => ([], 1)
 
+end Flamego.Lib
+
+namespace Flamego.Lib
+/-- a compiled `*regexp.Regexp` stands for its expression -/
+abbrev Regexp := Flamego.Bytes
+/-- `(*regexp.Regexp).MatchString`: the engine's unanchored search (the engine is the parameter of every routing model) -/
+def Regexp_MatchString (E : Flamego.Engine) (re : Regexp) (s : Flamego.Bytes) : Bool := E.search re s
 end Flamego.Lib
